@@ -336,7 +336,9 @@ T_("opals", ["T"], [("a", ("Paar", "T"), False)], "T", ["Gib erstes von a zurüc
 T_("opminus", ["T"], [("a", "T", False), ("b", "T", False)], "T", ["Gib b zurück."], "<a> minus <b>", t_all(["P", "ZP", "TP"]),
    lambda sg, a, b: (b, None), lambda sg: [V(sg["T"]), V(sg["T"], 1)], operator="minus")
 T_("summe", ["T"], [("p", ("Paar", "T"), False), ("q", ("Paar", "T"), False)], "T", ["Gib p plus q zurück."], "summe <p> und <q>", t_all(["Z", "T"]),
-   lambda sg, p, q: (q[0], None), lambda sg: [PAIRV(sg, 2), PAIRV(sg)], needs=("opplus",))
+   lambda sg, p, q: (q[0], None), lambda sg: [PAIRV(sg, 2), PAIRV(sg)], needs=("opplus",),
+   # the importing modules overload the same operator for the same parameter types differently: must not be captured
+   callsite=("Die generische Funktion fremdplus mit den Parametern a und b vom Typ T-Paar und T-Paar, gibt ein T zurück, macht:\n\tGib zweites von a zurück.\nUnd überlädt den \"plus\" Operator.\n",))
 # the body MUTATES its by-value parameters; the caller prints its own variables afterwards; compiled at -O 0 and -O 2
 T_("mutidx", ["T"], [("l", ("L", "T"), False), ("e", "T", False)], ("L", "T"), ["Speichere e in l an der Stelle 1.", "Gib l zurück."], "mutidx <l> mit <e>", t_all(["Z", "T"]),
    lambda sg, l, e: ([e] + l[1:], None), lambda sg: [[V(sg["T"], 1), V(sg["T"], 0)], V(sg["T"], 2)], opt2=True)
